@@ -5,6 +5,7 @@ package gosym
 
 import (
 	"fmt"
+	"os/exec"
 	"go/types"
 	"os"
 	"path/filepath"
@@ -67,6 +68,16 @@ func (c *Config) defaults() {
 	if len(c.SolverArgv) == 0 {
 		c.SolverArgv = []string{"z3", "-in"}
 		c.SolverName = "z3"
+		// z3 5.1.0 (z3-new) decides the multiplication/digit-range queries that
+		// 4.8.12 times out on; it is the primary solver when present
+		if p, err := exec.LookPath("z3-new"); err == nil {
+			c.SolverArgv = []string{p, "-in"}
+			c.SolverName = "z3-new"
+		}
+		if s := os.Getenv("GOSYM_SOLVER"); s != "" {
+			c.SolverArgv = []string{s, "-in"}
+			c.SolverName = s
+		}
 	}
 }
 
@@ -121,6 +132,8 @@ func Load(cfg *Config) (*Program, error) {
 	prog.Build()
 	return &Program{Prog: prog, Pkgs: pkgs, cfg: cfg, LoadS: loadS, BuildS: time.Since(t1).Seconds()}, nil
 }
+
+func (p *Program) SolverName() string { return p.cfg.SolverName }
 
 // FindFunc resolves "pkgpath.Func".
 func (p *Program) FindFunc(name string) *ssa.Function {
@@ -217,6 +230,9 @@ func (p *Program) NewInterp() (*Interp, error) {
 		return nil, err
 	}
 	in.sv = sv
+	if sl := os.Getenv("GOSYM_SOLVERLOG"); sl != "" && cfg.SolverLog == "" {
+		cfg.SolverLog = sl
+	}
 	if cfg.SolverLog != "" {
 		f, _ := os.Create(cfg.SolverLog)
 		sv.log = f
